@@ -373,7 +373,7 @@ def extract_fn(relpath, qual, ann):
         m2 = re.match(r"^(.*)\.into_iter\(\)$", xtxt, re.S)
         if m2:
             xtxt = m2.group(1)
-        bind = f"let {ptxt} = &verif_v{k}[verif_i{k}];" if byref else f"let {ptxt} = verif_v{k}[verif_i{k}].clone();"
+        bind = f"let {ptxt} = &verif_v{k}[verif_i{k}];" if byref else f"let {ptxt} = verif_elem(&verif_v{k}, verif_i{k});"
         b0, b1 = l["body"]
         head = (f"let verif_v{k} = {'&' if byref else ''}{xtxt}; let mut verif_i{k}: usize = 0;\nwhile verif_i{k} < verif_v{k}.len()\n" + inv.rstrip()
                 + f"\n    decreases verif_v{k}.len() - verif_i{k}\n{{ {bind}\n")
